@@ -31,7 +31,7 @@ pub fn run(c: &Case, rep: &mut Report) {
             return;
         }
     };
-    let mut m = Model { dedup: coll == "types", has_find: coll == "types" || coll == "imports", no_delete: coll == "locals", vals: vec![], dead: vec![] };
+    let mut m = Model { dedup: coll == "types", has_find: coll == "types" || coll == "imports" || coll == "exports", no_delete: coll == "locals", vals: vec![], dead: vec![] };
     let mut steps = 0;
     for (step, s) in syms.chars().enumerate() {
         let got = match end.str(&format!("s{}", step)) {
